@@ -3,6 +3,7 @@ import TxVerif.Tie.PQ
 import TxVerif.Props.C13Stale
 import TxVerif.Props.PQQueueConc
 import TxVerif.Proofs.PQQueueConcFail
+import TxVerif.Props.PQQueueConcF
 open TxVerif
 #print axioms pq_writers_exclusive
 #print axioms pq_no_deadlock
@@ -53,3 +54,11 @@ open TxVerif
 #print axioms QInv_sameBuf
 #print axioms sim_flush_failed
 #print axioms sim_next_failed
+#print axioms concF_step_invariant
+#print axioms concF_invariant
+#print axioms concF_fail_unobservable
+#print axioms concF_lock_released
+#print axioms concF_linearizable_partial
+#print axioms concF_example_fail_retry
+#print axioms concF_pFail_inv
+#print axioms concF_cFail_inv
